@@ -474,10 +474,25 @@ pub fn record_c19(a: &Args) -> usize {
             pairs.push((rng.r#gen(), rng.r#gen()));
         }
     }
+    // the supported types are discovered, not assumed: every (family, id) pair is offered to from_bytes once (other bytes
+    // zero) and every distinct type that comes back is examined, so a newly added, self-consistent type is not an alarm
+    let mut types: Vec<SignType> = ALL_TYPES.to_vec();
+    for f in 0..=255u8 {
+        for i in 0..=255u8 {
+            let mut b = [0u8; 16];
+            b[0] = f;
+            b[1] = i;
+            if let Ok(Ok(t)) = catch(|| SignType::from_bytes(&b)) {
+                if !types.contains(&t) {
+                    types.push(t);
+                }
+            }
+        }
+    }
     let per = (pairs.len() + shards - 1) / shards;
     for sh in 0..shards {
         out.next_shard();
-        for t in ALL_TYPES {
+        for t in types.iter().copied() {
             let block = t.to_bytes();
             let (w, h) = t.dimensions();
             out.emit(json!({"e": "type", "name": format!("{:?}", t), "block": j::bytes(block), "w": w, "h": h,
